@@ -14,7 +14,8 @@ import math
 import operator
 from copy import copy
 from collections.abc import Iterator
-from decimal import Decimal, DivisionByZero
+from decimal import Decimal
+from fractions import Fraction
 from typing import cast, NoReturn
 
 import elementpath.aliases as ta
@@ -654,18 +655,18 @@ def evaluate__idiv_operator(self: XPathToken, context: ta.ContextType = None) ->
             return 1
         raise self.error('XPTY0004', err) from None
 
-    try:
-        result = op1 // op2
-    except (ZeroDivisionError, DivisionByZero):
+    if op2 == 0:
         if isinstance(context, XPathSchemaContext):
             return 1
-        raise self.error('FOAR0001') from None
-    else:
-        if result >= 0 or isinstance(op1, Decimal) or \
-                isinstance(op2, Decimal) or abs(op1) == abs(op2):
-            return int(result)
-        else:
-            return int(result) + 1
+        raise self.error('FOAR0001')
+    elif math.isinf(op2):
+        return 0
+    try:
+        if isinstance(op1, float) or isinstance(op2, float):
+            op1, op2 = float(op1), float(op2)  # numeric promotion of an xs:integer operand
+    except OverflowError:
+        raise self.error('FOAR0002') from None
+    return int(Fraction(op1) / Fraction(op2))  # exact quotient truncated toward zero
 
 
 # Resolve the intrinsic ambiguity of some infix operators
